@@ -46,6 +46,10 @@ def gen_recipe(rng, fmt, tier="quick"):
         "lon0": rng.choice([150.0, 0.0, 170.5, 359.0 - 6, -20.0]), "lat0": rng.choice([-30.0, 0.0, 45.25, -75.0]),
         "dlon": rng.choice([0.25, 0.5, 1.0]), "dlat": rng.choice([0.25, 0.5, 1.0]),
     }
+    if rng.random() < 0.2:
+        r["dir_first"] = True
+        if rng.random() < 0.5:
+            r["nd"] = r["nf"] if base not in ("octopus", "funwave") else r["nd"]
     nt = rng.choice([1, 1, 2, 3, 4, 5]) if not big else rng.choice([3, 6, 9])
     if base == "swan":
         if rng.random() < 0.45:
@@ -202,6 +206,8 @@ def features(st, history):
         f.append("nan-spectrum")
     if r["dims"] and r["dims"][0][0] != "time" and "time" in dims:
         f.append("time-not-first")
+    if r.get("dir_first") and r.get("nd", 0) > 0:
+        f.append("dir-before-freq")
     if st["fmt"].startswith("funwave") and r.get("nd", 0) > 1:
         from simkit.data import make_dir
 
@@ -521,6 +527,7 @@ def simplify(plan):
         if st["fmt"].endswith("_gz"):
             variant(lambda s: s.update(fmt=s["fmt"][:-3], file=s["file"][:-3]))
         variant(lambda s: s["recipe"]["dir"].update(order="asc"))
+        variant(lambda s: s["recipe"].pop("dir_first", None))
         variant(lambda s: s["recipe"]["dir"].update(dir0=0.0))
         variant(lambda s: s["recipe"]["data"].update(zero_at=-1))
         variant(lambda s: s["recipe"]["data"].update(nan_at=-1))
